@@ -3,7 +3,7 @@
 STRUCTS[name] = (lean structure name, [(field, model type, python slot, python class)])
 The python class of a field is only needed for struct-typed fields (so that a symbolic
 input object of the right class can be built)."""
-from symexec import Sc, Bo, Obj, SList, SOpt, Unsupported, to_sc, to_bo
+from symexec import Sc, Bo, Si, Obj, SList, SOpt, Unsupported, to_sc, to_bo
 
 STRUCTS = {
     'V2': [('x', 'S', '_x', None), ('y', 'S', '_y', None)],
@@ -96,6 +96,8 @@ def make_input(index, term, mtype, pycls):
         return Sc(('var', term))
     if mtype == 'B':
         return Bo(('bvar', term))
+    if mtype == 'I':
+        return Si(('ivar', term))
     if isinstance(mtype, str):
         ci = index.find_class(pycls)
         o = Obj(ci)
